@@ -46,5 +46,7 @@ def run(ctx):
              "evaluations": traces, "distinct_nontrivial": len(paths) + rc["cases"],
              "rule": "tour of the 2-request Tversion model + seeded sessions with Tversions in mid-session",
              "trace_lines_validated": tlines + tl, "trace_rejects": len(rejects), "trace_reject_samples": [list(x) for x in rejects[:5]],
-             "tour_edges_covered": cov, "tour_edges_total": total}
+             "tour_edges_covered": cov, "tour_edges_total": total,
+             "observed_not_judged": {"replies_sent_after_the_Rversion_for_requests_it_aborted": sum(1 for v in verdicts if v[1] == "C03" and v[2] == "reply-after-rflush"),
+                                     "implementation_called_for_a_request_the_Tversion_had_aborted": sum(1 for v in verdicts if v[2] == "call-after-cancel")}}
     return ctx.finish("model_checking", cov_d, assumptions=["Tversion is sent with tag NOTAG", "beyond the listed properties"])
